@@ -349,7 +349,7 @@ def case_vector(ctx, rng):
 
 
 def run(ctx):
-    for _, rng in ctx.cases("arrays", ctx.n(6000, 150000)):
+    for _, rng in ctx.cases("arrays", ctx.budget(250000, 4000000)):
         ctx.run_case(case_array, ctx, rng)
-    for _, rng in ctx.cases("vectors", ctx.n(4000, 100000)):
+    for _, rng in ctx.cases("vectors", ctx.budget(170000, 3000000)):
         ctx.run_case(case_vector, ctx, rng)
